@@ -1,7 +1,7 @@
 /- Driver for `kind = "c09:…"` cases: the independent implementation of docs/storage.md
    (`Model/StorageScheme.lean` over the executable crypto specifications) reads stores the library wrote
    (`c09:read`, `c09:golden`), writes stores the library must read (`c09:write`), states the documented constants
-   (`c09:consts`) and is itself cross-checked against the crates the library uses (`c09:b58`, `c09:cbor`). -/
+   (`c09:consts`) and its Base58 is cross-checked against the crate the library uses (`c09:b58`). -/
 import Driver.Common
 import AskarModel.Model.StorageScheme
 
@@ -241,16 +241,6 @@ def b58 (j : Json) : Json :=
       | none => jerr "Input"
   .arr ops.toArray
 
-def cborOps (j : Json) : Json :=
-  let ops := (arr! j "ops").map fun o =>
-    match str! o "op" with
-    | "enc" => jhex (parseProfileKey o).toCbor
-    | _ =>
-      match ProfileKey.ofCbor (hex! o "b") with
-      | some k => Json.arr #[jhex k.ick, jhex k.ink, jhex k.ihk, jhex k.tnk, jhex k.tvk, jhex k.thk]
-      | none => jerr "Unsupported"
-  .arr ops.toArray
-
 /-- TEST vectors of the repository's own unit tests (`hmac_expected`), plus the specifications' self tests -/
 def selfTest : Json :=
   let x (s : String) : Bytes := (Bytes.ofHex s).getD []
@@ -266,7 +256,6 @@ def runCase (j : Json) : Json :=
   | "c09:write" => writeStore j
   | "c09:consts" => consts
   | "c09:b58" => b58 j
-  | "c09:cbor" => cborOps j
   | "c09:selftest" => selfTest
   | k => jerr ("unknown kind " ++ k)
 
